@@ -4,6 +4,7 @@ package props
 // recorded defect still reproduces; the driver then prints the KNOWN-FINDING line.
 
 import (
+	"fmt"
 	"strings"
 	"testing"
 	"time"
@@ -12,6 +13,7 @@ import (
 	sigtypes "github.com/chain4energy/c4e-chain/x/cfesignature/types"
 	vestingtypes "github.com/chain4energy/c4e-chain/x/cfevesting/types"
 	sdk "github.com/cosmos/cosmos-sdk/types"
+	banktypes "github.com/cosmos/cosmos-sdk/x/bank/types"
 )
 
 func TestKnownC12CVAValidate(t *testing.T) {
@@ -64,5 +66,32 @@ func TestKnownC12SigExport(t *testing.T) {
 	_, err = sigkeeper.NewMsgServerImpl(b.App.CfesignatureKeeper).PublishReferencePayloadLink(sdk.WrapSDKContext(b.QueryCtx()), &sigtypes.MsgPublishReferencePayloadLink{Creator: KeyAcc(1).Addr.String(), Key: "k1", Value: "other"})
 	if err != nil {
 		t.Fatalf("finding no longer reproduces: the payload link survived export/import (%v)", err)
+	}
+}
+
+// TestKnownC12GovFunds (finding F-GOVFUNDS): the application lets the governance module account
+// receive coins (app.go BlockedModuleAccountAddrs), x/gov InitGenesis panics unless that account
+// holds exactly the deposits of the stored proposals: one coin sent there makes every later export
+// unusable.
+func TestKnownC12GovFunds(t *testing.T) {
+	c := NewChainFromGenesis(GenesisBytes(BaseSpec()), 1, T0)
+	bt := c.Begin(T0.Add(time.Second))
+	o := KeyAcc(1)
+	r := c.Deliver(&bt, c.BuildTx(o, &banktypes.MsgSend{FromAddress: o.Addr.String(), ToAddress: ModuleAddr("gov").String(), Amount: sdk.NewCoins(sdk.NewInt64Coin(Denom, 1))}))
+	if r.Code != 0 {
+		t.Fatalf("finding no longer reproduces: the governance account cannot receive coins (%s)", r.Log)
+	}
+	c.End(&bt)
+	st, h, err := c.Export()
+	if err != nil {
+		t.Fatal(err)
+	}
+	var pan interface{}
+	func() {
+		defer func() { pan = recover() }()
+		NewChainFromGenesis(st, h, c.Time)
+	}()
+	if pan == nil || !strings.Contains(fmt.Sprint(pan), "expected module account was") {
+		t.Fatalf("finding no longer reproduces: import result %v", pan)
 	}
 }
